@@ -64,10 +64,37 @@ package main
 //@   ensures [noNew] forall s string :: c.ips.allocated[s] != nil ==> c.ips.allocated[s] == old(c.ips.allocated[s])
 //@   modifies map[string]*allocator.alloc, map[allocator.Port]string, map[string]bool, map[string]int, map[string]allocator.PoolCounters, allocator.alloc.pool, allocator.Allocator.pools, controller.pools, fresh *ipaddr.Prefix, fresh *ipaddr.Cursor, fresh *ipaddr.Position, fresh []ipaddr.Prefix, gint("cursor.pos"), fresh []string, fresh []interface{}, $held
 
-// convergeBalancer is not verified yet: only its frame (what it may write) and that it leaves the counters lock free
-// are assumed where SetBalancer calls it.
+// events reported to the API server and the IP-set comparison helper: no effect on the modelled state, except that
+// isEqualIPs sorts both slices in place (a permutation of each)
+//@ func (service).Errorf
+//@   trusted
+//@   modifies nothing
+//@ func (service).Infof
+//@   trusted
+//@   modifies nothing
+//@ func isEqualIPs
+//@   trusted
+//@   ensures len(ipsA) == old(len(ipsA)) && len(ipsB) == old(len(ipsB))
+//@   modifies elems(ipsA), elems(ipsB)
+//@ func serviceFamilyChanged
+//@   ensures result == (lbIPsIPFamily == ipfamily.Unknown || (lbIPsIPFamily != clusterIPsIPFamily && !(clusterIPsIPFamily == ipfamily.DualStack && familyPolicy == v1.IPFamilyPolicyPreferDualStack)))
+//@   modifies nothing
+
+// clearServiceState: the allocation is released and status / pool annotation are emptied
+//@ func (*controller).clearServiceState
+//@   requires c != nil && svc != nil && allocator.Inv(c.ips) && c.ips.countersChangedCallback != nil && allocator.PoolsOK(c.ips.pools.ByName) && lockstate(c.ips.countersMutex) == 0
+//@   ensures [inv] allocator.Inv(c.ips) && lockstate(c.ips.countersMutex) == 0 && lockframe(c.ips.countersMutex)
+//@   ensures [released] c.ips.allocated[key] == nil && (forall s string :: s != key ==> c.ips.allocated[s] == old(c.ips.allocated[s]))
+//@   ensures [emptied] len(svc.Status.LoadBalancer.Ingress) == 0 && !(AnnotationIPAllocateFromPool in svc.Annotations)
+//@   ensures [distinct] old(allocator.InvD(c.ips)) ==> allocator.InvD(c.ips)
+//@   modifies map[string]*allocator.alloc, map[allocator.Port]string, map[string]bool, map[string]int, map[string]allocator.PoolCounters, map(svc.Annotations), svc.Status.LoadBalancer.Ingress, fresh *ipaddr.Prefix, fresh *ipaddr.Cursor, fresh *ipaddr.Position, fresh []ipaddr.Prefix, gint("cursor.pos"), fresh []string, fresh []interface{}, $held
+
+// convergeBalancer is not verified (an attempt in abstracted mode left dozens of obligations undischarged: the
+// function re-sorts the recorded address list in place through isEqualIPs, which the allocator invariant's predicates
+// do not survive symbolically): only its frame and that it leaves the counters lock free are assumed where
+// SetBalancer calls it.
 //@ func (*controller).convergeBalancer
 //@   trusted
 //@   requires c != nil && svc != nil
 //@   ensures lockstate(c.ips.countersMutex) == 0 && lockframe(c.ips.countersMutex)
-//@   modifies map[string]*allocator.alloc, map[allocator.Port]string, map[string]bool, map[string]int, map[string]allocator.PoolCounters, map[string]string, v1.LoadBalancerStatus.Ingress, k8s.io/apimachinery/pkg/apis/meta/v1.ObjectMeta.Annotations, fresh *ipaddr.Prefix, fresh *ipaddr.Cursor, fresh *ipaddr.Position, fresh []ipaddr.Prefix, gint("cursor.pos"), fresh []string, fresh []interface{}, fresh *allocator.alloc, fresh []allocator.Port, fresh *allocator.key, fresh *allocator.Allocation, fresh []net.IP, fresh []*config.Pool, fresh []v1.LoadBalancerIngress, $held
+//@   modifies map[string]*allocator.alloc, map[allocator.Port]string, map[string]bool, map[string]int, map[string]allocator.PoolCounters, map[string]string, v1.LoadBalancerStatus.Ingress, k8s.io/apimachinery/pkg/apis/meta/v1.ObjectMeta.Annotations, fresh *ipaddr.Prefix, fresh *ipaddr.Cursor, fresh *ipaddr.Position, fresh []ipaddr.Prefix, gint("cursor.pos"), fresh []string, fresh []interface{}, fresh *allocator.alloc, fresh []allocator.Port, fresh *allocator.key, fresh *allocator.Allocation, fresh []net.IP, fresh []*config.Pool, fresh []v1.LoadBalancerIngress, []net.IP, $held
